@@ -392,7 +392,8 @@ def gen_case(seed):
             for seg in d[0][1]:
                 node = node[seg]
             if kind == 'value':
-                node['_value'] = 5
+                # (a falsy value is a value too; own stream)
+                node['_value'] = Rng(derive(seed, 'conflict_value')).pick([5, 0, 0, False, 0.0])
                 sch2['_value'] = 6
             elif kind == 'units':
                 node['_units'] = 'mm'
